@@ -535,7 +535,7 @@ def observe(source: str, config: str, fresh: bool = False):
             gc.collect()
 
 
-RECYCLE_CHECKERS_EVERY = 25
+RECYCLE_CHECKERS_EVERY = 100
 _OBSERVED = [0]
 
 
